@@ -54,6 +54,7 @@ PROP = {  # commit subject fragment -> (property, key)
  "branch goals were registered on excluded lines": ("C08", "predicate-on-excluded-line"),
  "scopes defined inside an excluded branch": ("C08", "scope-defined-in-excluded-branch"),
  "ran __iter__ of collection subclasses": ("C01", "tracer-runs-user-iter-and-getattr-dict"),
+ "undefined between a tuple type and a union": ("C25", "tuple-vs-union-distance-undefined"),
  "KeyError for a loop in dead code": ("C06", "dead-code-cycle"),
  "beyond chromosome_length": ("C15", "insertion-exceeds-chromosome-length"),
  "statements binding a lambda": ("C24", "seed-parser-drops-lambda-statements"),
